@@ -49,7 +49,7 @@ def main():
             shutil.copy(f, os.path.join(wt, demo_dir))
             demos.append(os.path.splitext(os.path.basename(f))[0])
         standalone = os.path.exists(os.path.join(src, "demo", "Cargo.toml"))
-        sdst = os.path.join(wt, "SEED3", os.path.basename(src.rstrip("/")))
+        sdst = os.path.join(wt, os.path.basename(os.path.dirname(src.rstrip("/"))), os.path.basename(src.rstrip("/")))
         if standalone:
             # a standalone demo package that path-depends on ../../../fast-tlsh: place it at the same relative position in this worktree
             shutil.copytree(src, sdst, ignore=shutil.ignore_patterns("target"))
@@ -85,7 +85,7 @@ def main():
         print("demo with patch:", "fails" if not ok_with else "PASSES", "| without:", "passes" if ok_without else "FAILS")
         # checks on the patched tree
         sh(["git", "apply", patch], wt)
-        shutil.rmtree(os.path.join(wt, "SEED3"), ignore_errors=True)
+        shutil.rmtree(os.path.join(wt, os.path.basename(os.path.dirname(src.rstrip("/")))), ignore_errors=True)
         shutil.rmtree("/tmp/ev/target-demo-" + sid, ignore_errors=True)
         for d in demos: os.remove(os.path.join(wt, demo_dir, d + ".rs"))
         props = ["C%02d" % i for i in range(1, 19)]
